@@ -2,6 +2,8 @@ package sim
 
 import (
 	"context"
+	"runtime"
+	"strings"
 	"errors"
 	"fmt"
 	"time"
@@ -27,6 +29,7 @@ import (
 
 // Call is one call of the provider module into another module (OBS-CALL).
 type Call struct {
+	Scope    string `json:"scope,omitempty"` // per-consumer operation the call belongs to (launch|delete|rewards|send)
 	Method   string `json:"method"`
 	Args     string `json:"args,omitempty"`
 	InBlock  bool   `json:"in_block_processing"`
@@ -39,9 +42,10 @@ type CallRec struct {
 	Calls []Call
 	// InBlock is true while the application's BeginBlocker or EndBlocker runs
 	InBlock bool
-	// Armed: inject an error at the InjectAt-th (0-based) in-block call of this block
+	// Armed: inject an error at the InjectAt-th (0-based) in-block call of this block that belongs to Scope
 	Armed    bool
 	InjectAt int
+	Scope    string
 	counter  int
 	Injected *Call
 	// Slashes etc. are kept in structured form for the punishment oracles
@@ -78,17 +82,43 @@ func (r *CallRec) hit(method, args string) bool {
 	c := Call{Method: method, Args: args, InBlock: r.InBlock}
 	inject := false
 	if r.InBlock {
-		if r.Armed && r.counter == r.InjectAt {
-			inject = true
-			c.Injected = true
+		c.Scope = callScope()
+		if r.Scope == "" || c.Scope == r.Scope {
+			if r.Armed && r.counter == r.InjectAt {
+				inject = true
+				c.Injected = true
+			}
+			r.counter++
 		}
-		r.counter++
 	}
 	r.Calls = append(r.Calls, c)
 	if inject {
 		r.Injected = &r.Calls[len(r.Calls)-1]
 	}
 	return inject
+}
+
+// callScope inspects the call stack: which per-consumer operation of the provider module is running?
+func callScope() string {
+	pcs := make([]uintptr, 48)
+	n := runtime.Callers(3, pcs)
+	frames := runtime.CallersFrames(pcs[:n])
+	for {
+		fr, more := frames.Next()
+		switch {
+		case strings.HasSuffix(fr.Function, "keeper.Keeper.LaunchConsumer"):
+			return "launch"
+		case strings.HasSuffix(fr.Function, "keeper.Keeper.DeleteConsumerChain"):
+			return "delete"
+		case strings.HasSuffix(fr.Function, "keeper.Keeper.AllocateConsumerRewards"):
+			return "rewards"
+		case strings.HasSuffix(fr.Function, "keeper.Keeper.SendVSCPacketsToChain"):
+			return "send"
+		}
+		if !more {
+			return ""
+		}
+	}
 }
 
 // InBlockCalls returns the in-block calls of the current block.
